@@ -213,10 +213,17 @@ type vfBackend struct {
 	mu     sync.Mutex
 	got    [][]byte
 	closed bool
+	fail   bool // an injected fault: the backend cannot be reached, Send reports an error and delivers nothing
 	onSend func(b *vfBackend, raw []byte)
 }
 
 func (b *vfBackend) Send(msg *Message) error {
+	b.mu.Lock()
+	f := b.fail
+	b.mu.Unlock()
+	if f {
+		return fmt.Errorf("backend %s unreachable (injected fault)", b.addr)
+	}
 	raw, err := msg.Bytes()
 	if err != nil {
 		return err
